@@ -32,7 +32,8 @@ import types
 
 from hio.base import doing, tyming
 
-EXC = {"ValueError": ValueError, "KeyboardInterrupt": KeyboardInterrupt, "RuntimeError": RuntimeError}
+EXC = {"ValueError": ValueError, "KeyboardInterrupt": KeyboardInterrupt, "RuntimeError": RuntimeError,
+       "SystemExit": SystemExit}   # SystemExit: a doer calling sys.exit(); a BaseException that is not an Exception
 MAX_CYCLES = 600
 
 
@@ -672,7 +673,7 @@ def execute(prog, failpoint_k=None, max_cycles=None, foreign_task=False, reuse=N
             run.result = ("runaway", None)
             run.trace.append(("do-raise", "doist", run.doist.tyme, {"exc": "Runaway"}))
         except BaseException as ex:  # noqa - KeyboardInterrupt/SystemExit from the run are results, not harness errors
-            if isinstance(ex, (SystemExit, GeneratorExit)):
+            if isinstance(ex, GeneratorExit) or (isinstance(ex, SystemExit) and not str(ex).startswith("scripted")):
                 raise
             run.result = ("raise", type(ex).__name__)
             run.trace.append(("do-raise", "doist", run.doist.tyme, {"exc": type(ex).__name__}))
